@@ -73,6 +73,13 @@ def c16_runs(tier, scale):
     return [("c16", [25 * scale], None), ("c16", [15 * scale], None)]
 
 
+def c17_runs(tier, scale):
+    # the corpus of type definitions is compiled in; the argument is the number of values per type
+    if tier == "thorough":
+        return [("c17", [60 * scale], None) for i in range(4)]
+    return [("c17", [6 * scale], None)]
+
+
 def c05_runs(tier, scale):
     th = 1 if tier == "thorough" else 0
     runs = [("c05", [lim, th], None) for lim in ([4096, 65536, 1 << 20] if tier == "quick" else [4096, 16384, 65536, 1 << 20, 16 << 20])]
@@ -348,6 +355,36 @@ PROPS = {
                 "permuted in the schema (out-of-order fields); x random values from boundary pools x target block sizes {none, 1, 16, 4096}; the serde call sequence of every value is "
                 "recorded by a recording Serializer and replayed on the model",
         "trusted_base": DATUM_TB + ["serde's derive decides which Serializer methods are called; the harness records them with its own Serializer and the model consumes the recording"],
+        "assumptions": [],
+    },
+    "C17": {
+        "lean_modules": ["AvroProofs.C17"],
+        "theorems": ["Avro.C17.derived_fields_are_serde_fields", "Avro.C17.derived_tuple_fields", "Avro.C17.derived_variants_are_serde_variants",
+                     "Avro.C17.plain_enum_default_is_symbol", "Avro.C17.plain_enum_shape", "Avro.C17.option_shape", "Avro.C17.option_of_union_is_a_panic",
+                     "Avro.C17.defined_name_gives_ref", "Avro.C17.option_of_union_panics", "Avro.C17.option_of_option_panics",
+                     "Avro.C17.kebab_case_symbol_outside_grammar", "Avro.C17.variant_records_defined_twice"],
+        "partial": [
+            {"theorem": "Avro.C17.* (structure of the derived schema)",
+             "excluded_by": "the full statement (every derived schema is well formed and accepts every value of its type) is FALSE of the code: three kernel-checked witnesses "
+                            "(option_of_union_panics, kebab_case_symbol_outside_grammar, variant_records_defined_twice) are replayed on the crate as known findings. Proved for every "
+                            "definition of the modelled language: record fields / union branches are exactly the unskipped fields / variants in declaration order under serde's names; "
+                            "a plain enum's default is one of its symbols; Option<T> is [null, T] or a panic, and a panic exactly when that is no legal union; an already defined name "
+                            "derives to a reference. NOT proved: acceptance of every value by the serializer and the round trip through read_deser and the container - these involve "
+                            "serde's generated code and the schema-aware (de)serializer and are decided by the oracle on generated values of every corpus type. The model covers structs "
+                            "with named fields, unit-only enums and enums with data in the default union-of-records representation, with namespace / rename / rename_all / "
+                            "rename_all_fields / doc / alias / skip / default attributes; flatten, transparent, the other enum representations and generics are not modelled yet"},
+        ],
+        "harness": c17_runs,
+        "projection": "exact",
+        "nontrivial": lambda l: True,
+        "rule": "a generated corpus of 150 type definitions (tools/gen_c17.py, committed as harness/src/c17_corpus.rs and compiled with /repo's derive macro on every run): structs, "
+                "unit-only enums, enums with unit / newtype / tuple / struct variants; field types from 12 scalars, Option, Vec, HashMap<String, _>, Box and earlier corpus types (biased "
+                "towards mentioning a definition twice), one recursive type; container attributes namespace / rename / doc / alias / rename_all (8 rules) / rename_all_fields, field "
+                "attributes rename / skip / default / alias / doc, variant attributes rename / skip / #[default]; every type's description in the model's definition language is "
+                "generated alongside; x generated values per type (boundary pools), written with write_ser, read with read_deser, and through Writer::append_ser / "
+                "Reader::into_deser_iter",
+        "trusted_base": TEXT_TB + ["tools/gen_c17.py emits each Rust definition together with its description in the model's language; that the two say the same is not checked "
+                                   "beyond the rows agreeing", "serde's derive (the Serialize / Deserialize impls of the corpus types)"],
         "assumptions": [],
     },
     "C05": {
